@@ -400,35 +400,47 @@ class C06(PropertyCheck):
     theorems = ["QipVerif.C06." + t for t in (
         "tables_tie", "rot_calibrated", "iswap_calibrated", "sqrtiswap_calibrated", "closed_forms_are_groups",
         "label_connects", "label_connects_iff", "C06_counterexample_label",
-        "phase_accumulated", "end_to_end_partial")]
+        "phase_accumulated", "end_to_end_partial",
+        "propagator_is_exponential", "rot_calibrated_exp", "iswap_calibrated_exp", "sqrtiswap_calibrated_exp",
+        "end_to_end_exp_partial")]
     technique = ("Lean 4: the compiler's formulas and tables regenerated from the source with ast into functions over an abstract "
                  "arithmetic, instantiated with R for the theorems and with Q for the compiled model driver; calibration "
-                 "identities over C for every angle and strength; label rule for every chain length; composition with the "
+                 "identities over C for every angle and strength, with the ideal propagator of a constant segment defined as "
+                 "Mathlib's matrix exponential exp(-i*T*u*c*H) (closed forms proved from the power series: Q^3=Q lemma, even/odd "
+                 "split); label rule for every chain length; composition with the "
                  "transpilation theorem (C13/C03/C07) and disjoint-support commutation; instruction-level correspondence with "
                  "the implementation and exact-unitary comparison with run_analytically")
     level_text = ("Lean 4 theorems about the regenerated formulas/tables of SpinChainCompiler, generate_pulse_shape and "
                   "SpinChainModel and the hand model of the compiler stage: for every real angle and every non-zero strength the "
                   "compiled RX/RZ pulse has the ideal propagator R(theta) (area theta/4pi, sign and magnitude of the coefficient, "
                   "duration; theta = 0 gives duration 0); the exchange pulses of area -1/8, -1/16 give ISWAP, SQRTISWAP (generated "
-                  "and exact library matrices); for every chain length >= 2, both topologies and every two distinct qubits the "
+                  "and exact library matrices); the ideal propagator is the matrix exponential (Mathlib NormedSpace.exp) "
+                  "exp(-i * duration * coeff * 2pi*H_label) of the control Hamiltonian SpinChainModel puts on the label (Pauli "
+                  "operator / XX+YY and the factor 2pi read from the regenerated tables): propagator_is_exponential proves the closed "
+                  "forms cos(phi) - i sin(phi) P (P^2 = 1) and the block form for XX+YY equal to it, on one/two qubits and embedded in "
+                  "the N-qubit register for every instruction; rot/iswap/sqrtiswap_calibrated_exp and end_to_end_exp_partial are "
+                  "stated with the exponential; for every chain length >= 2, both topologies and every two distinct qubits the "
                   "chosen coupling label connects the gate's qubits iff they are coupled (counter-example for non-neighbours); the "
                   "reported global phase is the sum of the GLOBALPHASE gates of the transpiled circuit; end_to_end_partial: for every "
                   "N, topology, angle valuation, strength vector and accepted circuit, e^{i*phase} x product of the instructions' "
                   "ideal propagators = circuit unitary, in circuit order and in every scheduled time order respecting the "
                   "dependencies, composed from the transpilation theorem (C13/C03/C07), the calibration theorems and "
-                  "disjoint-support commutation. Partial: ideal propagators of constant segments are the two trusted closed forms; "
+                  "disjoint-support commutation. Partial: "
                   "the step from the instruction list to the slice product of run_analytically (C12 + C14 + expm) is compared "
                   "numerically (1e-9) on every run; hypotheses: no gate on more than two qubits unless transpile pre-decomposes them "
-                  "(C13-1, applied), positive instruction durations unless compile drops zero-duration instructions (C06-2), the "
+                  "(C13-1, applied), positive instruction durations unless compile drops zero-duration instructions (C06-2, applied: "
+                  "clause 6 of end_to_end_partial discharges it), the "
                   "routing stage over C (RouteStageDen), PHASEGATE at multiples of pi/4.")
-    level_note = ("Trusted: Lean kernel (propext, Classical.choice, Quot.sound); the closed forms exp(-i phi P) and exp(-i phi (XX+YY)) "
-                  "as definitions (shown to be one-parameter groups with value 1 at 0); py/translate/spinchain.py (ast), "
+    level_note = ("Trusted: Lean kernel (propext, Classical.choice, Quot.sound); py/translate/spinchain.py (ast), "
                   "cross-checked against the live compiler/model objects every run; the models of C13/C07/C03 and C05/C11 as composed "
-                  "in lean/Drv/SpinChain.lean; C12/C14 for concatenation and slice product; numpy/scipy expm; the harness.")
+                  "in lean/Drv/SpinChain.lean; C12/C14 for concatenation and slice product; numpy/scipy expm (that Qobj.expm computes "
+                  "the matrix exponential); the harness.  No analytic closed form is trusted any more: exp(-i phi P) and "
+                  "exp(-i phi (XX+YY)) are proved from Mathlib's exponential (Lemmas/MatExp.lean, Lemmas/SpinChainExp.lean).  The fixes "
+                  "C06-1, C06-2, C13-1 are applied in /repo; the regenerated flags loadsEmpty, dropsZeroDuration, pre are true.")
     trusted_base = [
         "Lean 4.33 kernel; axioms propext, Classical.choice, Quot.sound",
-        "two analytic closed forms taken as the DEFINITION of the ideal propagator of a constant segment: "
-        "exp(-i*phi*P) = cos(phi) - i sin(phi) P for P^2 = 1, and the block form of exp(-i*phi*(XX+YY))",
+        "Mathlib's definition of the matrix exponential (NormedSpace.exp, power series) as the meaning of 'ideal propagator of a "
+        "constant Hamiltonian segment' exp(-i*T*H); the closed forms are proved, not assumed",
         "py/translate/spinchain.py (ast extraction of the compiler/model formulas and tables), cross-checked against the live "
         "objects every run",
         "models of C13/C07/C03 (transpile), C05/C11 (scheduler) as composed by lean/Drv/SpinChain.lean; C12/C14 for the "
